@@ -12,7 +12,8 @@ LEVEL = "exploration"
 RULE = ("packages = every package any successful to_proto call returns while driving: the C01 design generators (structural "
         "kernels, expression kernels, seeded random hierarchies), the repository's examples, the built-in generators over their "
         "parameter ranges, PDK-compiled designs (sample, Sky130, GF180, ASAP7) and the primitive / external-module parameter "
-        "space, and adversarially named designs (designer names equal to names the elaborator invents); distinct = sha256 of the deterministic serialization; non-trivial = >= 2 modules or a slice/concat target")
+        "space, designs defined outside any Python module (exec), successive packages declaring different external modules under "
+        "one name, and adversarially named designs (designer names equal to names the elaborator invents); distinct = sha256 of the deterministic serialization; non-trivial = >= 2 modules or a slice/concat target")
 ASSUMPTIONS = [
     "uniqueness of names is demanded per kind (signals, ports, instances), not across kinds",
     "netlister acceptance is not demanded for packages holding un-compiled hdl21.primitives devices (vlsirtools refuses those on purpose)",
@@ -46,6 +47,9 @@ def run(ctx, rec):
         drive(ctx, rec, corpus.builtin_generators(ctx, rng, 4 if q else 8))
         drive(ctx, rec, corpus.pdk_designs(ctx, rng, 2 if q else 6))
     drive(ctx, rec, corpus.param_space(ctx, rng, 300 if q else 1500))
+    if ctx.shard == 0:
+        drive(ctx, rec, corpus.exec_defined(ctx, rng, 3 if q else 9))
+        drive(ctx, rec, corpus.conflicting_externals(ctx, rng, 2 if q else 6))
     drive(ctx, rec, corpus.collision_designs(ctx, rng, 260 if q else 900))
     gens = list(corpus.generated_designs(ctx, rng, 600 if q else 2500, depth=2 if q else 3))
     if ctx.nshards > 1:
